@@ -21,7 +21,8 @@ TECHNIQUE = ('Hypothesis-generated workbooks and a fixed catalogue of '
              'reference forms x sampled environments; read-trace invariant '
              'through the PYCEL_VERIF hook plus the metamorphic relation '
              '"influence implies ancestor" (perturb each constant, fresh '
-             'compile, compare)')
+             'compile, compare)'
+             '; defined name = its definition (equivalence pairs) and bounded twins of unbounded references in the catalogue')
 LEVEL_TEXT = ('Exploration: every reference form the property lists (plain, '
               'sheet-qualified, quoted sheet, absolute, range, intersection, '
               'multi-colon, defined name incl. multi-area, unbounded, ROW/'
